@@ -107,6 +107,17 @@ inline void place(Case &c, const std::string &p, int viewpct) {
   c.setu(p + ".fseed", seed());
 }
 
+// shapes that enter the block-recursive PLE (width * nrows > __M4RI_PLE_CUTOFF and ncols > 64) in configurations with a
+// small cache; returns false when the threshold is out of reach at the current scale
+inline bool ple_recursive_shape(const GenCtx &ctx, int &m, int &n) {
+  long plecut = vf_cfg_ple_cutoff();
+  if (ctx.scale < 400 || plecut > 20000) return false;
+  int w = wpick<int>({{3, rng(8, 20)}, {2, rng(20, 64)}, {1, rng(6, 8)}});
+  m = (int)(plecut / w) + rng(1, 80);
+  n = 64 * w - pick<int>({0, 0, 1, 63, rng(0, 63)});
+  return true;
+}
+
 inline int cutoff() {
   int cls = rng(0, 9);
   if (cls < 2) return 0;
